@@ -41,6 +41,7 @@ type dscenario struct {
 	key         string
 	nsxExtra    bool     // NSX: foreign (non-Netspoc) objects on the manager
 	procEnv     []string // production-stack runs: extra environment of the process
+	procStdout  *os.File // production-stack runs: standard output of the process (nil: collected)
 	panDirtyBy  string   // PAN-OS: candidate configuration carries uncommitted changes of this admin
 	panRunning  string   // PAN-OS: running configuration if it differs from the candidate ("" = same)
 	infoFor     string   // IOS: accepted commands with this prefix are answered with an INFO: line
